@@ -339,6 +339,8 @@ class Gen(object):
                 return r.choice([127, 128, 129, 16383, 16384, 16385, 32768, 49152, 65535, 65536, 70000])
             return r.choice([0, 1, 2, 3, 5, cap])
         lo, hi = size['lo'], size['hi']
+        if kind == 'bits' and size['ext'] and lo == hi and 'bits_fixed_ext_outside' in self.o.avoid:
+            return lo
         if size['ext'] and r.random() < .25 and not (kind and kind + '_ext_outside' in self.o.avoid):
             return r.choice([x for x in [lo - 1, hi + 1, hi + 3] if x >= 0])
         if hi is None:
